@@ -259,7 +259,8 @@ class AsyncIOClient(ABC):
                     await self.writer.drain()
                     self.logger.debug(f"Sent: {msg.hex()}")
 
-        except ValueError as ve:
+        except (ValueError, NotImplementedError) as ve:
+                # not a connection problem: the message cannot be encoded (or this gateway type has no encoder)
                 self.logger.warning(f"Failed to encode message. Error {ve}")
         except Exception as ex:
             if self._state != State.CLOSED:
